@@ -48,6 +48,7 @@ type ShardInfo struct {
 	CompletedAt int64
 	ExpectedEnd int64
 	Size        uint64
+	MaxPledge   sdk.Int // largest collateral ever recorded on the shard (what has been taken for it)
 }
 
 type Track struct {
@@ -155,12 +156,15 @@ func (trackOracle) Step(e *Env, si *StepInfo) {
 		// shard bookkeeping
 		for _, sid := range shardIDs(cur.Order) {
 			sh := cur.Order.Shards[sid]
+			if info := t.Shards[sid]; info != nil && !sh.Pledge.Amount.IsNil() && (info.MaxPledge.IsNil() || sh.Pledge.Amount.GT(info.MaxPledge)) {
+				info.MaxPledge = sh.Pledge.Amount
+			}
 			if oi := t.Orders[sh.OrderId]; oi != nil {
 				oi.Providers[sh.Sp] = true
 			}
 			ps, had := prev.Order.Shards[sid]
 			if sh.Status == ordertypes.ShardCompleted && (!had || ps.Status != ordertypes.ShardCompleted) {
-				info := &ShardInfo{Id: sid, Sp: sh.Sp, CompletedAt: si.Height, Size: sh.Size_}
+				info := &ShardInfo{Id: sid, Sp: sh.Sp, CompletedAt: si.Height, Size: sh.Size_, MaxPledge: sh.Pledge.Amount}
 				// paid duration from the order record at completion time
 				if o, ok := cur.Order.Orders[sh.OrderId]; ok {
 					info.ExpectedEnd = si.Height + int64(o.Duration)
